@@ -30,7 +30,12 @@ Init == /\ tid = 1 /\ l = 1 /\ viol = {} /\ dead = FALSE
 
 \* spec successor for a logged step
 SpecStep(t, s, ev) ==
-  CASE ev.kind = "bar"             -> [ok |-> TRUE, err |-> "", s |-> P(t)!Bar(s, ev.arg)]
+  CASE ev.kind = "bar"             ->
+         [ok |-> TRUE, err |-> "",
+          s |-> IF Traces[t].cfg.impact
+                THEN P(t)!BarH(s, ev.arg, [on |-> TRUE, f |-> [i \in 1..Len(ev.obs.orders) |-> ev.obs.orders[i].filled],
+                                                        q |-> [i \in 1..Len(ev.obs.orders) |-> ev.obs.orders[i].qfilled]])
+                ELSE P(t)!Bar(s, ev.arg)]
     [] ev.kind = "create_order"    -> P(t)!CreateOrder(s, ev.arg)
     [] ev.kind = "cancel_order"    -> P(t)!CancelOrder(s, ev.arg)
     [] ev.kind = "create_loan"     -> P(t)!CreateLoanI(s, ev.arg.sym, ev.arg.amount)
@@ -98,7 +103,7 @@ StepClauses(t, pre, ev) ==
                  x.state = y.state /\ x.filled = y.filled /\ x.qfilled = y.qfilled /\ x.fee = y.fee
                  /\ ToSet(x.loans) = y.loans)
      \cup Cl("Step_FillOrKill_ShouldFill",
-             ~(ev.kind = "bar") \/ \A i \in 1..Min2(Len(ob.orders), Len(post.orders)) :
+             ~(ev.kind = "bar") \/ Traces[t].cfg.impact \/ \A i \in 1..Min2(Len(ob.orders), Len(post.orders)) :
                  (post.orders[i].type \in {"market", "stop"} /\ i <= Len(pre.orders) /\ pre.orders[i].state = "open"
                   /\ so.orders[i].state = "completed") => ob.orders[i].state = "completed")
      \cup Cl("Step_Loans", sameLoans /\ \A j \in 1..Min2(Len(ob.loans), Len(post.loans)) :
